@@ -73,6 +73,23 @@ def d_icode_pair(t):
             a["icode"] = "A"
 
 
+def d_boundary_twin(t):
+    """The first residue of the second chain gets the name and number of the last residue of the first chain (consecutive records differing in the chain only)."""
+    res = corpus.residues(t)
+    chains = []
+    for ident, _ in res:
+        if ident[1] not in chains:
+            chains.append(ident[1])
+    if len(chains) < 2:
+        return False
+    last_a = [ident for ident, _ in res if ident[1] == chains[0]][-1]
+    first_b = [(ident, atoms) for ident, atoms in res if ident[1] == chains[1]][0]
+    if any(ident[1] == chains[1] and ident[2] == last_a[2] and ident[3] == last_a[3] for ident, _ in res):
+        return False
+    for a in first_b[1]:
+        a["resseq"], a["icode"], a["resname"] = last_a[2], last_a[3], last_a[4]
+
+
 def d_hetatm(t):
     for a in t:
         if a["chain"] == "A" and a["resseq"] == 3:
@@ -165,6 +182,7 @@ def deviations():
          d_remove("O3'", 3), d_remove("P", 4), d_remove("N9", 3), d_translate]
     d += [d_op(x) for x in (2.39, 2.395, 2.405, 2.41)]
     d += [d_reverse, d_hydrogens]
+    d += [d_boundary_twin]
     # coordinates that fill the 8-character PDB fields completely (<= -100.000, >= 1000.000)
     d += [d_shift(-250.0, -250.0, -250.0), d_shift(1500.0, 0.0, -180.0), d_shift(0.0, 2000.0, 0.0)]
     return d
